@@ -90,6 +90,16 @@ CLAIMED = {
              "multiples of pi/4, axis-aligned edges.",
         design="§4 C14", technique="source-to-Coq translation + Coq proof (field/trig) + exact definition check on implementation output",
         note="uniqueness of the boundary point on a ray from an interior point of a convex set is assumed; tolerance 1e-9 size."),
+    "C08": dict(
+        text="Translator tie: the guard shape of EVERY property setter of every shape class is regenerated from /repo (Gen/Effects.v) and the theorem "
+             "'all setters are classified and every size setter is `if value > 0 (>= 0 for rounding radii): ... else raise ValueError`' is re-checked "
+             "by vm_compute on every run (fails closed on a new or changed setter). Theorems: uniform scaling multiplies volume/first/second cone moments "
+             "by s^3/s^4/s^5, centroid by s, inertia by s^5; iq invariant; a rescale with s^d = target/current reads back the target; translation keeps "
+             "the volume and shifts first moments. Correspondence: every settable property (reflection) x 4-21 targets x all 10 classes (tilted polygons "
+             "too): read-back, V'-c' = s(V-c) with one s, radii/semi-axes scaled alike, iq preserved; centroid/center = pure translation; 0/-1/nan raise "
+             "ValueError and leave the state bit-for-bit unchanged.",
+        design="§4 C08", technique="source-to-Coq translation of setter guards + Coq proof (homogeneity lemmas, vm_compute table check) + reflection-driven correspondence",
+        note="single semi-axes and the rounding radius are direct parameters (not similarities); getters undefined for a class are not judged; known finding polytri thresholds."),
 }
 
 REASON_TODO = "check not built yet (work in progress this round)"
